@@ -8,6 +8,27 @@ import gen
 from vlib import CACHE, hexs, unhexs
 
 
+def value_text(rng):
+    """The text of a tested value as `{:?}` gives it: mostly short, but also long (a long string, a long vector, a whole nested
+    struct), with characters a renderer might treat specially, empty, or spanning several lines (a user Debug impl may)."""
+    r = rng.random()
+    if r < 0.55:
+        return "v%02d" % rng.randint(0, 99)
+    if r < 0.70:
+        n = rng.choice([100, 119, 120, 121, 122, 150, 255, 256, 400, 1000, 3000])
+        body = "".join(rng.choice("abcdefghij0123456789, ") for _ in range(n - 2))
+        return "[" + body.strip().ljust(n - 2, "x") + "]"
+    if r < 0.78:
+        return '"' + "".join(rng.choice(["é", "ü", "日", "x", " "]) for _ in range(rng.choice([3, 60, 130]))) + '"'
+    if r < 0.86:
+        return rng.choice(['"{}"', '"{0}"', "`tick`", '"\\n"', 'S { a: 1, b: "x" }', "<none>", "...", "got got", '"a\\tb"', "%s", "\\u{1b}[31mred", "\x1b[31mred"])
+    if r < 0.90:
+        return ""
+    if r < 0.95:
+        return "S {\n    a: %d,\n}" % rng.randint(0, 9)
+    return " padded%d  " % rng.randint(0, 9)
+
+
 def run(ck, aspect):
     scratch = os.path.join(CACHE, "scratch", "rendered-%s-%d" % (aspect, os.getpid()))
     shutil.rmtree(scratch, ignore_errors=True)
@@ -33,7 +54,7 @@ def run(ck, aspect):
                     same_node = rng.random() < 0.6        # ... pushed against the very same node (as a map does for missing keys)
                 elif prev is not None and r < 0.45:
                     li, a, b = prev[0], prev[1], prev[2]  # same place, other texts
-                    act, exp = "v%02d" % rng.randint(0, 99), "p%02d" % rng.randint(0, 99)
+                    act, exp = value_text(rng), "p%02d" % rng.randint(0, 99)
                 elif prev is not None and r < 0.6:
                     act, exp = prev[3], prev[4]           # other place, same texts
                     li = rng.randrange(nlines)
@@ -43,7 +64,7 @@ def run(ck, aspect):
                     li = rng.randrange(nlines)
                     a = 4
                     b = len(lines[li]) - 1
-                    act, exp = "v%02d" % rng.randint(0, 99), "p%02d" % rng.randint(0, 99)
+                    act, exp = value_text(rng), "p%02d" % rng.randint(0, 99)
                 prev = (li, a, b, act, exp)
                 ments.append("%d %d %d %d simple:%s %s none" % (li + 1, a, li + 1, b, hexs(exp), hexs(act)))
                 ents.append("%d %d %d %d %s %s none" % (li + 1, a, li + 1, b, "prev" if same_node else "simple:" + hexs(exp), hexs(act)))
@@ -91,6 +112,10 @@ def run(ck, aspect):
                     for L in set(want_labels):
                         got_pairs += [(cur, L)] * ln_.count(L)
                 want_pairs = sorted((sh[0] + 1, L) for sh, L in zip(shown, want_labels))
+                # counting labels in the message only means something when no label is part of another one and none spans lines
+                ambiguous = any("\n" in L or not L.strip() for L in want_labels) or any(a != b and a in b for a in want_labels for b in want_labels)
+                if ambiguous:
+                    continue
                 if sorted(got_pairs, key=lambda x: (x[0] or 0, x[1])) != want_pairs and all(out.count(L) >= want_labels.count(L) for L in set(want_labels)):
                     dis += 1
                     if aspect == "C05":
